@@ -224,7 +224,7 @@ def rule_streq(ctx, sig, body, arg):
     """@rule streq <ident>: `<ident> == "lit"` -> `<ident>.as_str() == "lit"` (ident: &String).
     vstd specifies `&str == &str` but not `String == str`."""
     ident = arg.strip()
-    pat = re.compile(r'\b' + re.escape(ident) + r'\s*==\s*(")')
+    pat = re.compile(r'&?\b' + re.escape(ident) + r'\s*==\s*(")')
     ms = list(pat.finditer(body))
     if not ms:
         raise RuleError(f'`{ident} == "..."` not found')
@@ -449,3 +449,118 @@ def rule_mapindex(ctx, sig, body, arg):
     if n == 0:
         raise RuleError(f'`{expr}[..]` not found')
     return sig, body
+
+
+def rule_letchain(ctx, sig, body, arg):
+    """R-letchain: `if let P = E && C { A }` (no else) -> `if let P = E { if C { A } }`.
+    Verus: "let expressions not supported"; equivalent when there is no else branch."""
+    n = 0
+    while True:
+        toks = tokenize(body)
+        ct = code_tokens(toks)
+        hit = None
+        for i, t in enumerate(ct):
+            if t.kind == 'ident' and t.text == 'if' and ct[i + 1].text == 'let':
+                j = i + 2
+                depth = 0
+                amp = None
+                while j < len(ct):
+                    tx = ct[j].text
+                    if tx in ('(', '['):
+                        j = match_close(ct, j)
+                    elif tx == '&&' and depth == 0:
+                        amp = j
+                        break
+                    elif tx == '{':
+                        break
+                    j += 1
+                if amp is None:
+                    continue
+                k = amp + 1
+                while ct[k].text != '{':
+                    if ct[k].text in ('(', '['):
+                        k = match_close(ct, k)
+                    k += 1
+                close = match_close(ct, k)
+                if close + 1 < len(ct) and ct[close + 1].text == 'else':
+                    raise RuleError('let-chain with else branch')
+                hit = (i, amp, k, close)
+                break
+        if hit is None:
+            break
+        i, amp, k, close = hit
+        cond = body[ct[amp].end:ct[k].pos].strip()
+        new = (body[:ct[amp].pos].rstrip() + ' { if ' + cond + ' ' + body[ct[k].pos:ct[close].end] + ' }' + body[ct[close].end:])
+        ctx.note('R-letchain', body[ct[i].pos:ct[k].end], 'if let .. { if ' + cond + ' {')
+        body = new
+        n += 1
+    if n == 0:
+        raise RuleError('no let-chain found')
+    return sig, body
+
+
+def rule_refpat(ctx, sig, body, arg):
+    """R-refpat: `while let Some(&c) = E {` -> `while let Some(c__r) = E { let c = *c__r;`  ("ref patterns not supported")"""
+    pat = re.compile(r'Some\(&(\w+)\)\s*=\s*')
+    m = pat.search(body)
+    if not m:
+        raise RuleError('no `Some(&x) =` pattern')
+    v = m.group(1)
+    # find the opening brace of the block that follows
+    toks = tokenize(body)
+    ct = code_tokens(toks)
+    idx = next(i for i, t in enumerate(ct) if t.pos >= m.end())
+    k = idx
+    while ct[k].text != '{':
+        if ct[k].text in ('(', '['):
+            k = match_close(ct, k)
+        k += 1
+    new = body[:m.start()] + f'Some({v}__r) = ' + body[m.end():ct[k].end] + f' let {v} = *{v}__r;' + body[ct[k].end:]
+    ctx.note('R-refpat', m.group(0), f'Some({v}__r) = .. {{ let {v} = *{v}__r;')
+    return sig, new
+
+
+def rule_strcat(ctx, sig, body, arg):
+    """R-strcat: `a.to_string() + b.to_string().as_str() + &n` -> strcat3(a, b, &n); `a.to_string() + &n` -> strcat2(a, &n)
+    (chars a, b; String n); `String + &str` crashes Verus.  The external functions ensure r@ == seq![a, b] + n@."""
+    n = 0
+    p3 = re.compile(r'(\w+)\.to_string\(\)\s*\+\s*(\w+)\.to_string\(\)\.as_str\(\)\s*\+\s*&(\w+)')
+    p2 = re.compile(r'(\w+)\.to_string\(\)\s*\+\s*&(\w+)')
+    def r3(m):
+        nonlocal n
+        n += 1
+        ctx.note('R-strcat', m.group(0), f'strcat3({m.group(1)}, {m.group(2)}, &{m.group(3)})')
+        return f'strcat3({m.group(1)}, {m.group(2)}, &{m.group(3)})'
+    def r2(m):
+        nonlocal n
+        n += 1
+        ctx.note('R-strcat', m.group(0), f'strcat2({m.group(1)}, &{m.group(2)})')
+        return f'strcat2({m.group(1)}, &{m.group(2)})'
+    body = p3.sub(r3, body)
+    body = p2.sub(r2, body)
+    if n == 0:
+        raise RuleError('no string concatenation found')
+    return sig, body
+
+
+def rule_collectstr(ctx, sig, body, arg):
+    """R-collect: `v.into_iter().collect()` (Vec<char> -> String) -> chars_to_string(v) with ensures r@ == v@"""
+    p = re.compile(r'(\w+)\.into_iter\(\)\.collect\(\)')
+    if not p.search(body):
+        raise RuleError('no `.into_iter().collect()`')
+    def r(m):
+        ctx.note('R-collect', m.group(0), f'chars_to_string({m.group(1)})')
+        return f'chars_to_string({m.group(1)})'
+    return sig, p.sub(r, body)
+
+
+def rule_peekable(ctx, sig, body, arg):
+    """R-peekable: `s.chars().peekable()` -> chars_peekable(&s) with ensures rest(r) == s@
+    (assume_specification of provided trait methods such as Iterator::peekable is unsupported)"""
+    p = re.compile(r'(\w+)\.chars\(\)\.peekable\(\)')
+    if not p.search(body):
+        raise RuleError('no `.chars().peekable()`')
+    def r(m):
+        ctx.note('R-peekable', m.group(0), f'chars_peekable(&{m.group(1)})')
+        return f'chars_peekable(&{m.group(1)})'
+    return sig, p.sub(r, body)
